@@ -22,12 +22,15 @@
 
   The target fields have no computable equality; theorems take an arbitrary `[DecidableEq K2]`
   instance (use `Classical.decEq` / `open Classical`), exactly as Mathlib's `Point` group law does.
+  Point types are written `CurvePt b` (`Sem/CurvePt.lean`) so that instance resolution and rewriting
+  with the group lemmas work at the concrete field.
 -/
 import PyEcc.Sem.TransferRefineBls
 import PyEcc.Sem.TransferRefineBn
 import PyEcc.Props.C08_FqpInv
 import PyEcc.Props.C17_Sub
 import PyEcc.Sem.Primes
+import PyEcc.Sem.CurvePt
 import PyEcc.Model.Codec
 
 set_option linter.unusedSectionVars false
@@ -154,7 +157,7 @@ theorem k2bn_field_ok : (2 : K2bn) ≠ 0 ∧ (3 : K2bn) ≠ 0 ∧ Canon bnB2 ∧
 /-! ### G2: the model functions on canonical `F2` triples refine Mathlib's group over `K2` -/
 
 section G2
-variable [DecidableEq K2] {T T₁ T₂ : G2Pt} {P Q : (W (toQ blsB2 : K2)).Point}
+variable [DecidableEq K2] {T T₁ T₂ : G2Pt} {P Q : CurvePt (toQ blsB2 : K2)}
 
 /-- canonical triples stay canonical under the curve operations (so canonicity is an invariant of
     every computation that starts from decoded / constant / hashed points) -/
@@ -168,7 +171,7 @@ theorem canonT_ops (c₁ : CanonT T₁) (c₂ : CanonT T₂) (n : ℕ) :
 /-- `is_on_curve(T, b2)` run on a canonical model triple accepts exactly the triples whose value
     represents a Mathlib point of `y² = x³ + 4(1+i)` over `K2` -/
 theorem on_curve_iff_F2 (c : CanonT T) :
-    OptBls.is_on_curve T blsB2 = true ↔ ∃ P : (W (toQ blsB2 : K2)).Point, Represents (mapT toQ T) P :=
+    OptBls.is_on_curve T blsB2 = true ↔ ∃ P : CurvePt (toQ blsB2 : K2), Represents (mapT toQ T) P :=
   Bls.via_on_curve_iff goodHom_F2 k2_field_ok.1 k2_field_ok.2.1 k2_field_ok.2.2.1
     k2_field_ok.2.2.2 c
 
@@ -207,6 +210,17 @@ theorem subgroup_check_iff_F2 (c : CanonT T) (r : Represents (mapT toQ T) P) :
   Bls.via_is_inf_refines goodHom_F2 (Bls.good_multiply (B := K2) goodHom_F2 c blsR).1
     (opt_multiply_refines_F2 c r blsR)
 
+/-- `subgroup_check` gives the same answer on a canonical model triple and on its value in `K2` -/
+theorem subgroupCheck_toQ (c : CanonT T) : subgroupCheck (mapT (toQ : F2 → K2) T) = subgroupCheck T := by
+  show OptBls.is_inf (OptBls.multiply (mapT toQ T) blsR) = OptBls.is_inf (OptBls.multiply T blsR)
+  rw [← (Bls.good_multiply (B := K2) goodHom_F2 c blsR).2,
+    Bls.good_is_inf (B := K2) goodHom_F2 (Bls.good_multiply (B := K2) goodHom_F2 c blsR).1]
+
+/-- a canonical triple with `z = 0` represents the neutral element -/
+theorem represents_zero_F2 (hz : T.2.2 = 0) :
+    Represents (mapT (toQ : F2 → K2) T) (0 : CurvePt (toQ blsB2 : K2)) :=
+  C07Opt.Bls.represents_zero (by rw [mapT_snd_snd, hz]; exact (goodHom_F2 (v := .opt)).map_zero)
+
 /-- the model's `clear_cofactor_G2` on a canonical triple computes `H_EFF_G2 • P` (and stays canonical) -/
 theorem clearCofactorG2_refines (c : CanonT T) (r : Represents (mapT toQ T) P) :
     CanonT (clearCofactorG2 T) ∧ Represents (mapT toQ (clearCofactorG2 T)) (h2c_H_EFF_G2 • P) :=
@@ -216,7 +230,7 @@ end G2
 
 /-- non-vacuity: the generator constant `G2` of the model is canonical and on the curve, hence its
     value represents a Mathlib point over `K2` -/
-example [DecidableEq K2] : CanonT blsG2 ∧ ∃ P : (W (toQ blsB2 : K2)).Point, Represents (mapT toQ blsG2) P :=
+example [DecidableEq K2] : CanonT blsG2 ∧ ∃ P : CurvePt (toQ blsB2 : K2), Represents (mapT toQ blsG2) P :=
   ⟨by decide +kernel, (on_curve_iff_F2 (by decide +kernel)).mp (by decide +kernel)⟩
 
 end PyEcc.Transfer
